@@ -50,6 +50,30 @@ type vnode struct {
 
 const verifPassword = "verif-network-password"
 
+// delayFSM hands raft snapshots whose Persist starts late.
+type delayFSM struct {
+	*FSM
+	d time.Duration
+}
+
+type delaySnapshot struct {
+	raft.FSMSnapshot
+	d time.Duration
+}
+
+func (f *delayFSM) Snapshot() (raft.FSMSnapshot, error) {
+	s, err := f.FSM.Snapshot()
+	if err != nil {
+		return s, err
+	}
+	return &delaySnapshot{FSMSnapshot: s, d: f.d}, nil
+}
+
+func (s *delaySnapshot) Persist(sink raft.SnapshotSink) error {
+	time.Sleep(s.d)
+	return s.FSMSnapshot.Persist(sink)
+}
+
 // startNode opens (or re-opens) the node state in dir. fast shortens the raft timeouts.
 func startNode(dir string, fast bool) (*vnode, error) {
 	verifFlags(dir)
@@ -108,7 +132,13 @@ func startNode(dir string, fast bool) (*vnode, error) {
 		return nil, err
 	}
 	_, trans := raft.NewInmemTransport(raft.ServerAddress("verif-node"))
-	n.raft, err = raft.NewRaft(config, n.fsm, logcache, n.logStore, n.fss, trans)
+	var rf raft.FSM = n.fsm
+	if ms, _ := strconv.Atoi(os.Getenv("VERIF_PERSIST_DELAY_MS")); ms > 0 {
+		// a failpoint at the FSM boundary: raft persists a snapshot on its own goroutine while
+		// entries keep being applied; the delay widens that window
+		rf = &delayFSM{FSM: n.fsm, d: time.Duration(ms) * time.Millisecond}
+	}
+	n.raft, err = raft.NewRaft(config, rf, logcache, n.logStore, n.fss, trans)
 	if err != nil {
 		return nil, err
 	}
